@@ -32,21 +32,10 @@ Proof.
     + apply IH; assumption.
 Qed.
 
-Lemma first_known_none a c : first_known a c = None -> a = None /\ c = None.
-Proof. destruct a; cbn; [discriminate|]. auto. Qed.
-
-Lemma first_known_list_none {A} (f : A -> option known_class) l :
-  first_known_list f l = None -> forall x, In x l -> f x = None.
-Proof.
-  induction l as [|y l IH]; cbn [first_known_list]; [intros _ x []|].
-  intro H. apply first_known_none in H as [H1 H2]. intros x [<-|Hx]; [exact H1|apply IH; assumption].
-Qed.
-
 Section Main.
   Variable b64 : bytes -> option bytes.
 
   Definition LS (f : nat) (n : ns) (ctx : list (bytes * json)) (c : vclass) (j : json) (r : res cbor) : Prop :=
-    known f n c j = None ->
     match r with
     | Ok v => den b64 f n ctx c j v = true /\ dom b64 f n ctx c j = true
     | Err _ => dom b64 f n ctx c j = false
@@ -59,8 +48,6 @@ Section Main.
   Lemma den_scalar f n ctx c j v : is_scalar c = true -> den b64 f n ctx c j v = den0 b64 ctx c j v.
   Proof. destruct f, c; try discriminate; reflexivity. Qed.
   Lemma dom_scalar f n ctx c j : is_scalar c = true -> dom b64 f n ctx c j = dom0 b64 ctx c j.
-  Proof. destruct f, c; try discriminate; reflexivity. Qed.
-  Lemma known_scalar f n c j : is_scalar c = true -> known f n c j = known0 c j.
   Proof. destruct f, c; try discriminate; reflexivity. Qed.
 
   Lemma den0_dom0 ctx c j v : den0 b64 ctx c j v = true -> dom0 b64 ctx c j = true.
@@ -90,7 +77,7 @@ Section Main.
 
   Lemma LS_scalar f n ctx c j r : is_scalar c = true -> leaf_spec0 b64 ctx c j r -> LS f n ctx c j r.
   Proof.
-    intros S H. unfold LS. rewrite (known_scalar f n c j S). intro K. specialize (H K).
+    intros S H. unfold LS, leaf_spec0 in *.
     destruct r as [v|e|p].
     - rewrite den_scalar, dom_scalar by exact S. split; [exact H|apply (den0_dom0 _ _ _ _ H)].
     - rewrite dom_scalar by exact S. exact H.
@@ -101,17 +88,15 @@ Section Main.
 
   Lemma collect_spec f n c g js :
     (forall j, In j js -> LS f n [] c j (g j)) ->
-    first_known_list (known f n c) js = None ->
     match collect_res g js with
     | Ok vs => forall2b (den b64 f n [] c) js vs = true /\ forallb (dom b64 f n [] c) js = true
     | Err _ => forallb (dom b64 f n [] c) js = false
     | Panic _ => False
     end.
   Proof.
-    induction js as [|j js IH]; intros H K; cbn [collect_res]; [split; reflexivity|].
-    cbn [first_known_list] in K. apply first_known_none in K as [K1 K2].
-    pose proof (H j (or_introl eq_refl) K1) as Hj.
-    assert (IH' := IH (fun j' Hin => H j' (or_intror Hin)) K2). clear IH.
+    induction js as [|j js IH]; intros H; cbn [collect_res]; [split; reflexivity|].
+    pose proof (H j (or_introl eq_refl)) as Hj. unfold LS in Hj.
+    assert (IH' := IH (fun j' Hin => H j' (or_intror Hin))). clear IH.
     destruct (g j) as [v|e|p].
     - destruct Hj as [Hd Ho]. destruct (collect_res g js) as [vs|e|p].
       + destruct IH' as [A B]. cbn [forall2b forallb]. rewrite Hd, Ho, A, B. split; reflexivity.
@@ -129,10 +114,9 @@ Section Main.
   Lemma regular_field_ok f n mleaf fds dm kvs f0 r :
     (forall x c' ctx' j', class_of_name n x = Some c' -> LS f n ctx' c' j' (name_leaf b64 f n x j')) ->
     row_of_field n f0 = Some r -> fd_many f0 || fd_dyn f0 = false -> In r dm ->
-    (forall j, jget (dm_id r) kvs = Some j -> known f n (dm_class r) j = None) ->
     field_ok (ty_leaf (name_leaf b64 f n)) mleaf (den b64 f n kvs) (dom b64 f n kvs) fds dm kvs f0 r.
   Proof.
-    intros IH Hrow Hreg Hin K. unfold field_ok, field_from_json. rewrite Hreg.
+    intros IH Hrow Hreg Hin. unfold field_ok, field_from_json. rewrite Hreg.
     assert (Hm : fd_many f0 = false) by (destruct (fd_many f0); [discriminate|reflexivity]).
     unfold row_of_field in Hrow. rewrite Hreg in Hrow.
     destruct (fd_ty f0) as [x|t| |] eqn:T; try discriminate.
@@ -140,7 +124,7 @@ Section Main.
       destruct (class_of_name n x) as [c'|] eqn:C; [|discriminate]. cbn [option_map] in Hrow.
       inversion Hrow; subst r. cbn [dm_id dm_class dm_presence] in *. clear Hrow.
       destruct (jget (fd_wire f0) kvs) as [v|] eqn:J.
-      + cbn [ty_leaf]. pose proof (IH x c' kvs v C (K v eq_refl)) as L.
+      + cbn [ty_leaf]. pose proof (IH x c' kvs v C) as L. unfold LS in L.
         destruct (name_leaf b64 f n x v) as [cv|e|p]; cbn [rmap].
         * destruct L as [Ld Lo]. intros _. split.
           -- unfold row_dom. cbn [dm_presence dm_id dm_class]. rewrite J. exact Lo.
@@ -163,7 +147,7 @@ Section Main.
                  | Err _ => record_dom (dom b64 f n kvs) dm kvs = false
                  | Panic _ => False
                  end).
-        { intro Hv. cbn [ty_leaf]. pose proof (IH x c' kvs v C (K v eq_refl)) as L.
+        { intro Hv. cbn [ty_leaf]. pose proof (IH x c' kvs v C) as L. unfold LS in L.
           destruct (name_leaf b64 f n x v) as [cv|e|p]; cbn [rmap].
           - destruct L as [Ld Lo]. intros _. split.
             + unfold row_dom. cbn [dm_presence dm_id dm_class]. rewrite J, Lo. apply orb_true_r.
@@ -196,8 +180,7 @@ Section Main.
     LS (S f) n ctx (VRecord name) j (name_leaf b64 (S f) n name j).
   Proof.
     intros Hnl Hiso Hwf Hreg IH. rewrite Hnl. unfold LS, struct_leaf.
-    destruct j; try (intros _; reflexivity).
-    cbn [known]. intro K.
+    destruct j; try reflexivity.
     pose proof (struct_spec n (ty_leaf (name_leaf b64 f n)) no_map_leaf (den b64 f n kvs) (dom b64 f n kvs)
                   (den_null f n kvs) fds (spec_struct n name) kvs Hiso (dm_wf_b_spec _ Hwf)) as S.
     assert (Hf : forall f0 r, In f0 fds -> row_of_field n f0 = Some r ->
@@ -205,12 +188,7 @@ Section Main.
     { intros f0 r Hin Hrow. apply regular_field_ok; try assumption.
       - rewrite forallb_forall in Hreg. specialize (Hreg f0 Hin). destruct (fd_many f0 || fd_dyn f0); [discriminate|reflexivity].
       - apply (in_map (row_of_field n)) in Hin. rewrite Hiso, Hrow in Hin.
-        apply in_map_iff in Hin as (r' & E & Hr'). congruence.
-      - intros j Hj.
-        assert (Hr : In r (spec_struct n name)).
-        { apply (in_map (row_of_field n)) in Hin. rewrite Hiso, Hrow in Hin.
-          apply in_map_iff in Hin as (r' & E & Hr'). congruence. }
-        pose proof (first_known_list_none _ _ K r Hr) as Kr. cbn beta in Kr. rewrite Hj in Kr. exact Kr. }
+        apply in_map_iff in Hin as (r' & E & Hr'). congruence. }
     specialize (S Hf).
     destruct (struct_from_json (ty_leaf (name_leaf b64 f n)) no_map_leaf fds (JObj kvs)) as [vals|e|p]; cbn [rmap].
     - cbn [den dom]. rewrite untext_map. exact S.
@@ -224,9 +202,8 @@ Section Main.
     LS (S f) n ctx (VArray c') j (name_leaf b64 (S f) n name j).
   Proof.
     intros Hnl Hc IH. rewrite Hnl. unfold LS. cbn [ty_leaf].
-    destruct j; try (intros _; reflexivity).
-    cbn [known]. intro K.
-    pose proof (collect_spec f n c' (name_leaf b64 f n e) l (fun j' _ => IH e c' [] j' Hc) K) as C.
+    destruct j; try reflexivity.
+    pose proof (collect_spec f n c' (name_leaf b64 f n e) l (fun j' _ => IH e c' [] j' Hc)) as C.
     destruct (collect_res (name_leaf b64 f n e) l) as [vs|er|p]; cbn [rmap den dom]; exact C.
   Qed.
 
@@ -236,9 +213,8 @@ Section Main.
     LS (S f) n ctx (VNonEmptyArray c') j (name_leaf b64 (S f) n name j).
   Proof.
     intros Hnl Hc IH. rewrite Hnl. unfold LS. cbn [ty_leaf].
-    destruct j; try (intros _; reflexivity).
-    cbn [known]. intro K.
-    pose proof (collect_spec f n c' (name_leaf b64 f n e) l (fun j' _ => IH e c' [] j' Hc) K) as C.
+    destruct j; try reflexivity.
+    pose proof (collect_spec f n c' (name_leaf b64 f n e) l (fun j' _ => IH e c' [] j' Hc)) as C.
     destruct l as [|j0 l'].
     - cbn [collect_res]. reflexivity.
     - destruct (collect_res (name_leaf b64 f n e) (j0 :: l')) as [vs|er|p]; cbn [den dom].
@@ -285,7 +261,7 @@ Section Main.
     - (* depth 0: scalars only; a struct name yields Err and its class has an empty domain *)
       unfold class_of_name in Hc. cbv zeta in Hc.
       repeat (name_case Hc; [try_scalars ctx j|]).
-      destruct n; repeat (name_case Hc; [first [try_scalars ctx j | intros _; reflexivity]|]); discriminate.
+      destruct n; repeat (name_case Hc; [first [try_scalars ctx j | reflexivity]|]); discriminate.
     - specialize (IHf n). unfold class_of_name in Hc. cbv zeta in Hc.
       repeat (name_case Hc; [try_scalars ctx j|]).
       destruct n;
